@@ -154,8 +154,9 @@ class Check:
         if self.anchor_errors:
             for a in self.anchor_errors:
                 print("ANCHOR-MISSING property=%s %s" % (self.pid, a))
-            print("RESULT %s: UNDECIDED (anchor missing; failing closed)" % self.pid)
-            return 2
+            if not viol:
+                print("RESULT %s: UNDECIDED (anchor missing; failing closed)" % self.pid)
+                return 2
         if viol:
             os.makedirs(os.path.join(VERIF, "replay"), exist_ok=True)
             rp = os.path.join(VERIF, "replay", "%s.json" % self.pid)
